@@ -5,13 +5,17 @@
 package main
 
 import (
+	"encoding/json"
 	"fmt"
+	"math/rand"
+	"strings"
 	"os"
 	"sort"
 	"strconv"
 
 	"hermesverif/internal/checks"
 	"hermesverif/internal/core"
+	"hermesverif/internal/gen"
 )
 
 func main() {
@@ -68,6 +72,21 @@ func main() {
 			f(c)
 		}()
 		os.Exit(c.Finish())
+	case "gen":
+		// hv gen <seed> <outdir> [years]: write a random project (debugging aid)
+		seed, _ := strconv.ParseInt(os.Args[2], 10, 64)
+		years := 2
+		if len(os.Args) > 4 {
+			years, _ = strconv.Atoi(os.Args[4])
+		}
+		p := gen.Random(rand.New(rand.NewSource(seed)), "g"+os.Args[2], gen.Opts{Years: years, Schedules: true, Measure: true, HeavyRain: true, Drain: true})
+		if err := p.Write(os.Args[3], "/repo/examples/parameter"); err != nil {
+			fmt.Println(err)
+			os.Exit(2)
+		}
+		b, _ := json.MarshalIndent(p, "", " ")
+		os.WriteFile(os.Args[3]+"/project.json", b, 0644)
+		fmt.Println(strings.Join(p.Args(), " "))
 	case "list":
 		var ids []string
 		for k := range checks.Registry {
